@@ -85,15 +85,78 @@ def known_a(r):
     return None
 
 
+def error_paths(chk, tier):
+    """D-family independent of the reference interpreter: a fault (throw / bad index / type
+    mismatch / failed assert / wrong argument count / failed access) raised at a site reached
+    through plain calls, overloaded operators and protocols (@+ ... @^, @r+, @<, @==, @negate,
+    @index, @call, @display, @size, @next), iterator-adaptor callbacks (each/keep/fold/sort) and
+    generator bodies, under try/catch/finally shapes whose printed markers have exactly one
+    documented order."""
+    import json, os
+    from vlib import common as C
+    from checks import c04_paths as P
+    cases = list(P.cases())
+    if tier == "quick":
+        cases = cases            # 576 scripts: cheap enough to run all
+    binp, blog = C.build_harness("kh_run")
+    if not binp:
+        return
+    cf = os.path.join(C.BUILD, "cases", f"c04p-{os.getpid()}.jsonl")
+    os.makedirs(os.path.dirname(cf), exist_ok=True)
+    with open(cf, "w") as f:
+        for c in cases:
+            f.write(json.dumps({"src": c["src"], "limit_ms": 3000}) + "\n")
+    rc, out = C.sh([binp, cf], timeout=1800)
+    os.remove(cf)
+    outs = [json.loads(l) for l in out.splitlines() if l.startswith("{")]
+    if rc != 0 or len(outs) != len(cases):
+        chk.violation("harness", {"kind": "obligation", "correspondence": "kh_run crashed on the error-path family",
+                                  "log": out[-1500:]}, no_input=True)
+        return
+    bad = []
+    for c, o in zip(cases, outs):
+        chk.count_case(c["src"], True)
+        if "panic" in o or o.get("out") != c["expect_out"] or o.get("result") != "n":
+            bad.append((c, o))
+    chk.coverage["error_path_cases"] = len(cases)
+    chk.coverage["error_path_failures"] = len(bad)
+    if bad:
+        bad.sort(key=lambda t: len(t[0]["src"]))
+        c, o = bad[0]
+        chk.violation("errorpath", {"kind": "input", "program": c["src"], "case": c["name"],
+                                    "expected_output": c["expect_out"], "impl_says": o,
+                                    "predicate_failed": "the error did not reach the innermost enclosing catch / finally "
+                                                        "did not run exactly once / execution did not continue after the handler",
+                                    "others": [b[0]["name"] for b in bad[1:20]]})
+        chk.log(f"{len(bad)} error-path cases fail; smallest: {c['name']}\n{c['src']}impl: {o}")
+
+
 def run(tier, seed):
     return K.run_profile(PID, "C04Props", PINNED, G.TryGen, "try", known,
                          "seeded generator: faults (throw of strings, type mismatch, bad index, non-negatable operand) "
                          "planted under nestings of try / typed catch / catch / finally up to depth 3, inside called "
                          "functions and functions whose body is a try, with print markers before and after each region and "
                          "container mutations around the throw point; non-trivial = >= 4 lines with a verdict",
-                         500, 8000, tier, seed, size=(1, 3))
+                         500, 8000, tier, seed, size=(1, 3), extra=error_paths)
 
 
 def replay(path, args):
+    import json, os
+    from vlib import common as C
+    data = json.load(open(path))
+    if "expected_output" in data:
+        binp, _ = C.build_harness("kh_run")
+        cf = os.path.join(C.BUILD, "cases", "c04-replay.jsonl")
+        os.makedirs(os.path.dirname(cf), exist_ok=True)
+        open(cf, "w").write(json.dumps({"src": data["program"], "limit_ms": 3000}) + "\n")
+        rc, out = C.sh([binp, cf])
+        o = json.loads([l for l in out.splitlines() if l.startswith("{")][0])
+        print(data["program"])
+        print("impl:", o)
+        if "panic" in o or o.get("out") != data["expected_output"] or o.get("result") != "n":
+            print(f"VIOLATION property={PID} replay={path}")
+            return 1
+        print("the implementation now behaves as documented")
+        return 0
     r = K.replay_program(PID, path)
     return run("quick", 1) if r is None else r
